@@ -122,7 +122,16 @@ pub fn run(
     let num_workers = workers.len();
     let (worker_result_tx, worker_result_rx) = crossbeam_channel::bounded(num_workers);
 
+    #[cfg(feature = "verif")]
+    crate::verif::sched::expect_subs_g(crate::verif::sched::BEATREE_WORKERS, num_workers);
+    #[cfg(feature = "verif")]
+    let mut verif_next_worker = 0usize;
     for worker_params in workers.into_iter() {
+        #[cfg(feature = "verif")]
+        let verif_worker = {
+            verif_next_worker += 1;
+            verif_next_worker - 1
+        };
         let bbn_index = bbn_index.clone();
         let leaf_cache = leaf_cache.clone();
         let leaf_reader = leaf_reader.clone();
@@ -131,6 +140,12 @@ pub fn run(
         let changeset = changeset.clone();
 
         let leaf_stage_worker_task = move || {
+            #[cfg(feature = "verif")]
+            let _verif_sub = crate::verif::sched::SubGuard::begin_g(
+                crate::verif::sched::BEATREE_WORKERS,
+                verif_worker,
+                "leaf.worker",
+            );
             let prepared_leaves = preload_and_prepare(
                 &leaf_cache,
                 &leaf_reader,
@@ -171,6 +186,10 @@ pub fn run(
     let mut output = LeafStageOutput::default();
     output.submitted_io += overflow_io;
 
+    #[cfg(feature = "verif")]
+    crate::verif::sched::worker_point_g(crate::verif::sched::BEATREE_WORKERS, "leaf.join", &|| {
+        crate::verif::sched::subs_all_done()
+    });
     for _ in 0..num_workers {
         let worker_output = join_task(&worker_result_rx)?;
         apply_worker_changes(&leaf_reader, &mut output, worker_output);
@@ -679,6 +698,12 @@ fn run_worker(
         // we are able to respond to each request
         assert!(pending_left_request.is_none());
 
+        #[cfg(feature = "verif")]
+        if let Some(l) = worker_params.left_neighbor.as_ref() {
+            crate::verif::sched::worker_point_g(crate::verif::sched::BEATREE_WORKERS, "leaf.wait-left", &|| {
+                crate::verif::sched::recv_ready(&l.rx)
+            });
+        }
         match worker_params.left_neighbor.as_ref().map(|l| l.rx.recv()) {
             None => continue,
             Some(Ok(item)) => {
